@@ -266,11 +266,19 @@ func VerifSched(nModels int, nReq int, maxRunners int, queue int, flags int) {
 	s.Run(ctx)
 
 	done := make(chan int, nReq)
-	for i := 0; i < nReq; i++ {
-		go vfClient(s, i, nModels, done)
-	}
-	for i := 0; i < nReq; i++ {
-		<-done
+	if flags&8 != 0 {
+		// sequential history: each request starts after the previous one has finished
+		for i := 0; i < nReq; i++ {
+			go vfClient(s, i, nModels, done)
+			<-done
+		}
+	} else {
+		for i := 0; i < nReq; i++ {
+			go vfClient(s, i, nModels, done)
+		}
+		for i := 0; i < nReq; i++ {
+			<-done
+		}
 	}
 	verifReach("all-requests-answered")
 	// all requests have finished: let keep-alive periods elapse and the loops drain
